@@ -65,7 +65,7 @@ def step (db : DB) (toks : List String) : DB × String :=
         | (db', .committed) => (db', "ok")
         | (db', .conflict) => (db', "MUST-CONFLICT")
         | (db', _) => (db', "notlive")
-  | ["ids", _] | ["query", _] => (db, "ok")
+  | ["ids", _] | ["query", _] | ["mkindex", _] | ["iquery", _] => (db, "ok")
   | ["discard", i] => ((Defra.Mvcc.step db (.discard (nat i))).1, "ok")
   | _ => (db, "bad-op")
 
